@@ -1,14 +1,16 @@
 (* Model/Parse.v — the pure part of Session.Parse (layer_frame.go:152-413) and the
    Frame accessors (layer_frame.go:85-135), branch by branch, as the code is.
 
-   What is NOT here: the host table (findOrCreateHostWithLock, onlineTransition), the
-   statistics counters, the heartbeat flag and the ping table.  They are reached from
-   Parse but never feed back into the returned (Frame, error) pair; the arguments Parse
-   hands to them are kept as side outputs ([f_hostkey], [f_echo]) so that theorems about
-   "depends only on the bytes within the length" also cover what Parse passes on.
+   What is NOT here: the host table itself (findOrCreateHostWithLock, onlineTransition: owned by
+   the TABLES cluster), the statistics counters, the heartbeat flag and the ping table.  What
+   Parse hands to them is kept as side outputs: [f_host] is the (MAC, IP) key Parse looks up /
+   creates in the host table (None when the session configuration gates the call off; in Go it
+   is observable as frame.Host.Addr), [f_echo] the argument of echoNotify.  So "depends only on
+   the bytes within the length" also covers what Parse passes on.
 
-   The session configuration (host MAC, home LAN, router MAC) only gates the call to the
-   host table and therefore does not appear: the pure result does not depend on it. *)
+   The session configuration [cfg] (host MAC, router MAC, home LAN prefix) only gates the call
+   to the host table.  The net/netip predicates used by the gate (Prefix.Contains on IPv4,
+   IsLinkLocalUnicast, IsGlobalUnicast) are re-stated here from the Go 1.23 source. *)
 From PV Require Export Base.Prelude Base.Slice.
 Open Scope N_scope.
 Open Scope res_scope.
@@ -47,6 +49,59 @@ Definition PayloadSonos : N := 28.
 Definition Payload880a : N := 29.
 
 (* ---------------------------------------------------------------- *)
+(* Session configuration read by Parse, and the net/netip predicates of the host-table gate *)
+
+Record cfg := mkCfg {
+  c_hostmac : bytes;      (* h.NICInfo.HostAddr4.MAC *)
+  c_routermac : bytes;    (* h.NICInfo.RouterAddr4.MAC *)
+  c_lan : bytes;          (* h.NICInfo.HomeLAN4: the 4 address bytes ... *)
+  c_bits : N              (* ... and the prefix length (0..32; anything else: invalid prefix) *)
+}.
+
+(* bytes.Equal *)
+Fixpoint bytes_eqb (a b : bytes) : bool :=
+  match a, b with
+  | [], [] => true
+  | x :: a', y :: b' => (x =? y) && bytes_eqb a' b'
+  | _, _ => false
+  end.
+
+Definition ip_be32 (ip : bytes) : N := be32 (nth 0 ip 0) (nth 1 ip 0) (nth 2 ip 0) (nth 3 ip 0).
+
+(* netip.Prefix.Contains for an IPv4 prefix and an address made by AddrFrom4:
+   uint32((ip ^ p.ip) >> (32 - bits)) == 0 *)
+Definition lan_contains (c : cfg) (ip : bytes) : bool :=
+  (c_bits c <=? 32) && Nat.eqb (List.length (c_lan c)) 4 &&
+  (ip_be32 ip / 2 ^ (32 - c_bits c) =? ip_be32 (c_lan c) / 2 ^ (32 - c_bits c)).
+
+(* predicates on an address made by AddrFrom16 (16 bytes, never the zero Addr) *)
+Definition is_4in6 (ip : bytes) : bool :=
+  forallb (fun b => b =? 0) (firstn 10 ip) && (nth 10 ip 0 =? 255) && (nth 11 ip 0 =? 255).
+Definition ip6_is_llu (ip : bytes) : bool :=
+  if is_4in6 ip then (nth 12 ip 0 =? 169) && (nth 13 ip 0 =? 254)
+  else (nth 0 ip 0 =? 254) && (N.land (nth 1 ip 0) 192 =? 128).
+Definition ip6_is_gu (ip : bytes) : bool :=
+  if is_4in6 ip then
+    let v4 := skipn 12 ip in
+    negb (forallb (fun b => b =? 0) v4) && negb (forallb (fun b => b =? 255) v4) &&
+    negb (nth 0 v4 0 =? 127) &&                       (* loopback *)
+    negb (N.land (nth 0 v4 0) 240 =? 224) &&          (* multicast *)
+    negb (ip6_is_llu ip)
+  else
+    negb (forallb (fun b => b =? 0) ip) &&            (* unspecified *)
+    negb (forallb (fun b => b =? 0) (firstn 15 ip) && (nth 15 ip 0 =? 1)) &&   (* ::1 *)
+    negb (nth 0 ip 0 =? 255) &&                       (* multicast *)
+    negb (ip6_is_llu ip).
+
+(* !bytes.Equal(src MAC, host MAC) && HomeLAN4.Contains(ip) *)
+Definition gate4 (c : cfg) (smac ip : bytes) : bool :=
+  negb (bytes_eqb smac (c_hostmac c)) && lan_contains c ip.
+(* !bytes.Equal(src MAC, host MAC) && (ip.IsLinkLocalUnicast() || (ip.IsGlobalUnicast() && !bytes.Equal(src MAC, router MAC))) *)
+Definition gate6 (c : cfg) (smac ip : bytes) : bool :=
+  negb (bytes_eqb smac (c_hostmac c)) &&
+  (ip6_is_llu ip || (ip6_is_gu ip && negb (bytes_eqb smac (c_routermac c)))).
+
+(* ---------------------------------------------------------------- *)
 (* Addr and Frame *)
 
 (* packet.Addr: MAC is a sub-slice of the buffer (6 bytes, value recorded here; its position
@@ -64,25 +119,25 @@ Record frame := mkFrame {
   f_src : addr;            (* SrcAddr *)
   f_dst : addr;            (* DstAddr *)
   f_echo : option N;       (* side output: argument of echoNotify, if called *)
-  f_hostkey : option (bytes * bytes)
-                           (* side output: (MAC, IP) Parse offers to the host table
-                              (the session decides from its configuration whether to track it) *)
+  f_host : option (bytes * bytes)
+                           (* side output: (MAC, IP) key handed to findOrCreateHostWithLock
+                              (None: the configuration gate is closed, frame.Host stays nil) *)
 }.
 
 Definition set_id (f : frame) (id : N) : frame :=
-  mkFrame (f_off4 f) (f_off6 f) (f_offU f) (f_offT f) (f_offP f) id (f_src f) (f_dst f) (f_echo f) (f_hostkey f).
+  mkFrame (f_off4 f) (f_off6 f) (f_offU f) (f_offT f) (f_offP f) id (f_src f) (f_dst f) (f_echo f) (f_host f).
 Definition set_offP (f : frame) (o : nat) : frame :=
-  mkFrame (f_off4 f) (f_off6 f) (f_offU f) (f_offT f) o (f_id f) (f_src f) (f_dst f) (f_echo f) (f_hostkey f).
+  mkFrame (f_off4 f) (f_off6 f) (f_offU f) (f_offT f) o (f_id f) (f_src f) (f_dst f) (f_echo f) (f_host f).
 Definition set_offU (f : frame) (o : nat) : frame :=
-  mkFrame (f_off4 f) (f_off6 f) o (f_offT f) (f_offP f) (f_id f) (f_src f) (f_dst f) (f_echo f) (f_hostkey f).
+  mkFrame (f_off4 f) (f_off6 f) o (f_offT f) (f_offP f) (f_id f) (f_src f) (f_dst f) (f_echo f) (f_host f).
 Definition set_offT (f : frame) (o : nat) : frame :=
-  mkFrame (f_off4 f) (f_off6 f) (f_offU f) o (f_offP f) (f_id f) (f_src f) (f_dst f) (f_echo f) (f_hostkey f).
+  mkFrame (f_off4 f) (f_off6 f) (f_offU f) o (f_offP f) (f_id f) (f_src f) (f_dst f) (f_echo f) (f_host f).
 Definition set_ports (f : frame) (sp dp : N) : frame :=
   mkFrame (f_off4 f) (f_off6 f) (f_offU f) (f_offT f) (f_offP f) (f_id f)
           (mkAddr (a_mac (f_src f)) (a_ip (f_src f)) sp) (mkAddr (a_mac (f_dst f)) (a_ip (f_dst f)) dp)
-          (f_echo f) (f_hostkey f).
+          (f_echo f) (f_host f).
 Definition set_echo (f : frame) (e : option N) : frame :=
-  mkFrame (f_off4 f) (f_off6 f) (f_offU f) (f_offT f) (f_offP f) (f_id f) (f_src f) (f_dst f) e (f_hostkey f).
+  mkFrame (f_off4 f) (f_off6 f) (f_offU f) (f_offT f) (f_offP f) (f_id f) (f_src f) (f_dst f) e (f_host f).
 
 (* ---------------------------------------------------------------- *)
 (* The view functions Parse itself uses (private to this cluster). *)
@@ -225,7 +280,7 @@ Definition parse_proto (s : slice) (f : frame) (proto : N) : res frame :=
   else Ok f.
 
 (* case ETH_P_IP (layer_frame.go:179-201) *)
-Definition parse_ip4 (s : slice) (f : frame) : res frame :=
+Definition parse_ip4 (c : cfg) (s : slice) (f : frame) : res frame :=
   let f := set_id f PayloadIP4 in
   p <- payload_view s f ;;
   _ <- ip4_is_valid p ;;
@@ -236,11 +291,11 @@ Definition parse_ip4 (s : slice) (f : frame) : res frame :=
   let smac := a_mac (f_src f) in
   let f := mkFrame (f_offP f) 0 0 0 (f_offP f + ihl) PayloadIP4
                    (mkAddr smac sip 0) (mkAddr (a_mac (f_dst f)) dip 0)
-                   None (Some (smac, sip)) in
+                   None (if gate4 c smac sip then Some (smac, sip) else None) in
   parse_proto s f proto.
 
 (* case ETH_P_IPV6 (layer_frame.go:202-234) *)
-Definition parse_ip6 (s : slice) (f : frame) : res frame :=
+Definition parse_ip6 (c : cfg) (s : slice) (f : frame) : res frame :=
   let f := set_id f PayloadIP6 in
   p <- payload_view s f ;;
   _ <- ip6_is_valid p ;;
@@ -250,22 +305,24 @@ Definition parse_ip6 (s : slice) (f : frame) : res frame :=
   let smac := a_mac (f_src f) in
   let f := mkFrame 0 (f_offP f) 0 0 (f_offP f + 40) PayloadIP6
                    (mkAddr smac sip 0) (mkAddr (a_mac (f_dst f)) dip 0)
-                   None (Some (smac, sip)) in
+                   None (if gate6 c smac sip then Some (smac, sip) else None) in
   parse_proto s f proto.
 
 (* case ETH_P_ARP (layer_frame.go:235-259):
      if arp = frame.Payload(); len(arp) < 28 && arp[4] != 6 { return frame, ErrParseFrame }
      srcIP := netip.AddrFrom4 of the array conversion of arp[14:18]      -- slice expression: capacity check
      ... Addr{MAC: arp[8:14], IP: srcIP} offered to the host table *)
-Definition parse_arp (s : slice) (f : frame) : res frame :=
+Definition parse_arp (c : cfg) (s : slice) (f : frame) : res frame :=
   let f := set_id f PayloadARP in
   arp <- payload_view s f ;;
   bad <- (if Nat.ltb (len arp) 28 then b <- idx arp 4 ;; Ok (negb (b =? 6)) else Ok false) ;;
   if bad then Err EParseFrame else
   sip <- bytes_at arp 14 18 ;;
-  smac <- bytes_at arp 8 14 ;;
+  host <- (if gate4 c (a_mac (f_src f)) sip
+           then smac <- bytes_at arp 8 14 ;; Ok (Some (smac, sip))     (* key: the ARP sender MAC and IP *)
+           else Ok None) ;;
   Ok (mkFrame (f_off4 f) (f_off6 f) (f_offU f) (f_offT f) (f_offP f) PayloadARP (f_src f) (f_dst f)
-              None (Some (smac, sip))).
+              None host).
 
 (* case 0x8808, 0x8899, ... : PayloadID set, offsetPayload = frame.Ether().HeaderLen() *)
 Definition parse_leaf (s : slice) (f : frame) (id : N) : res frame :=
@@ -273,7 +330,7 @@ Definition parse_leaf (s : slice) (f : frame) (id : N) : res frame :=
   Ok (set_offP (set_id f id) hl).
 
 (* Session.Parse *)
-Definition parse (s : slice) : res frame :=
+Definition parse (c : cfg) (s : slice) : res frame :=
   _ <- ether_is_valid s ;;
   smac <- ether_src s ;;
   dmac <- ether_dst s ;;
@@ -282,9 +339,9 @@ Definition parse (s : slice) : res frame :=
   if negb (is_unicast_mac smac) then Ok f else
   et <- ether_type s ;;
   if et <? 1536 then Ok (set_id f Payload8023) else
-  if et =? 2048 then parse_ip4 s f                      (* ETH_P_IP *)
-  else if et =? 34525 then parse_ip6 s f                (* ETH_P_IPV6 0x86dd *)
-  else if et =? 2054 then parse_arp s f                 (* ETH_P_ARP 0x0806 *)
+  if et =? 2048 then parse_ip4 c s f                      (* ETH_P_IP *)
+  else if et =? 34525 then parse_ip6 c s f                (* ETH_P_IPV6 0x86dd *)
+  else if et =? 2054 then parse_arp c s f                 (* ETH_P_ARP 0x0806 *)
   else if et =? 34824 then parse_leaf s f PayloadEthernetPause   (* 0x8808 *)
   else if et =? 34969 then parse_leaf s f PayloadRRCP            (* 0x8899 *)
   else if et =? 35020 then parse_leaf s f PayloadLLDP            (* 0x88cc *)
